@@ -21,6 +21,11 @@
 //	squery <asc|desc> <min> <max> <maxElem> <sid>+.. <part>|..  banyand/stream tsResult over real mem parts; part = "sid:ts,..."
 //	miq    <asc|desc> <ent|fld> <seg>|<seg>..  measure index-mode ordered query over a real TSDB with one daily segment per
 //	                                          <seg> = "name:sort,..." (buildIndexQueryResult, segResultHeap, indexSortResult)
+//	sidxq  <maxElem> <iter> <part>|<part>..   banyand/stream idxResult (index-ordered stream query) over real mem parts; part and
+//	                                          iter = "sid:ts:id,..." (iter = what the ordered index yields, in sort-key order)
+//	dq     <trace|measure> <none|asc|desc> <nodes> <rows> <limit> <offset> <seed>
+//	                                          real DistributedAnalyze + Execute of the trace / measure logical plan against fake
+//	                                          data nodes that evaluate the pushed-down request faithfully (limit 0 = unset)
 //	mqr    <ts|sid> <asc|desc> <min> <max> <sid>+<sid>.. <part>|<part>..
 //	                                          banyand/measure queryResult over real mem parts (one per <part>),
 //	                                          part = "sid:ts:ver:val,..."; output = one "sid=ts:ver:val,.." per Pull
@@ -33,10 +38,14 @@ import (
 	"path/filepath"
 	"strconv"
 	"strings"
+	"time"
 
 	"google.golang.org/protobuf/types/known/timestamppb"
 
 	"github.com/apache/skywalking-banyandb/api/common"
+	commonv1 "github.com/apache/skywalking-banyandb/api/proto/banyandb/common/v1"
+	databasev1 "github.com/apache/skywalking-banyandb/api/proto/banyandb/database/v1"
+	tracev1 "github.com/apache/skywalking-banyandb/api/proto/banyandb/trace/v1"
 	measurev1 "github.com/apache/skywalking-banyandb/api/proto/banyandb/measure/v1"
 	modelv1 "github.com/apache/skywalking-banyandb/api/proto/banyandb/model/v1"
 	streamv1 "github.com/apache/skywalking-banyandb/api/proto/banyandb/stream/v1"
@@ -47,6 +56,7 @@ import (
 	"github.com/apache/skywalking-banyandb/banyand/protector"
 	bstream "github.com/apache/skywalking-banyandb/banyand/stream"
 	"github.com/apache/skywalking-banyandb/banyand/trace"
+	"github.com/apache/skywalking-banyandb/pkg/bus"
 	"github.com/apache/skywalking-banyandb/pkg/fs"
 	"github.com/apache/skywalking-banyandb/pkg/index"
 	itersort "github.com/apache/skywalking-banyandb/pkg/iter/sort"
@@ -55,6 +65,7 @@ import (
 	"github.com/apache/skywalking-banyandb/pkg/query/logical"
 	lmeasure "github.com/apache/skywalking-banyandb/pkg/query/logical/measure"
 	lstream "github.com/apache/skywalking-banyandb/pkg/query/logical/stream"
+	ltrace "github.com/apache/skywalking-banyandb/pkg/query/logical/trace"
 )
 
 var (
@@ -607,6 +618,197 @@ func doMIQ(f []string) string {
 	return out
 }
 
+func parseIdxElems(spec string) []bstream.VerifC09IdxElem {
+	var rows []bstream.VerifC09IdxElem
+	for _, e := range strings.Split(spec, ",") {
+		p := strings.Split(e, ":")
+		sid, _ := strconv.ParseUint(p[0], 10, 64)
+		ts, _ := strconv.ParseInt(p[1], 10, 64)
+		id, _ := strconv.ParseUint(p[2], 10, 64)
+		rows = append(rows, bstream.VerifC09IdxElem{Sid: sid, Ts: ts, ID: id})
+	}
+	return rows
+}
+
+func doSIdxQ(f []string) string {
+	if len(f) != 4 {
+		return "bad-op"
+	}
+	maxElem, _ := strconv.Atoi(f[1])
+	var parts [][]bstream.VerifC09IdxElem
+	for _, spec := range strings.Split(f[3], "|") {
+		parts = append(parts, parseIdxElems(spec))
+	}
+	res, err := bstream.VerifC09IdxQuery(parts, parseIdxElems(f[2]), maxElem)
+	if err != nil {
+		return "ERR"
+	}
+	var pages []string
+	var cur []string
+	for _, id := range res {
+		if id == 0 {
+			pages = append(pages, strings.Join(cur, ","))
+			cur = nil
+			continue
+		}
+		cur = append(cur, strconv.FormatUint(id, 10))
+	}
+	if len(pages) == 0 {
+		return "-"
+	}
+	return strings.Join(pages, "/")
+}
+
+type dqFuture struct{ m bus.Message }
+
+func (f dqFuture) Get() (bus.Message, error)      { return f.m, nil }
+func (f dqFuture) GetAll() ([]bus.Message, error) { return []bus.Message{f.m}, nil }
+
+// dqCluster plays the data nodes: node n owns rows (ids, ordered ascending by id = key = time); it answers the pushed-down
+// request the way a data node does: requested order, the first Limit rows (the pushed request carries no offset).
+type dqCluster struct {
+	kind   string
+	nodes  [][]int
+	pushed []string
+}
+
+func (c *dqCluster) Broadcast(_ time.Duration, _ bus.Topic, message bus.Message) ([]bus.Future, error) {
+	var limit int
+	desc := false
+	switch req := message.Data().(type) {
+	case *tracev1.QueryRequest:
+		limit = int(req.GetLimit())
+		c.pushed = append(c.pushed, fmt.Sprintf("%d+%d", req.GetLimit(), req.GetOffset()))
+		desc = req.GetOrderBy() != nil && req.GetOrderBy().GetSort() == modelv1.Sort_SORT_DESC
+	case *measurev1.InternalQueryRequest:
+		limit = int(req.GetRequest().GetLimit())
+		c.pushed = append(c.pushed, fmt.Sprintf("%d+%d", req.GetRequest().GetLimit(), req.GetRequest().GetOffset()))
+		desc = req.GetRequest().GetOrderBy() != nil && req.GetRequest().GetOrderBy().GetSort() == modelv1.Sort_SORT_DESC
+	default:
+		return nil, fmt.Errorf("unexpected message %T", message.Data())
+	}
+	var ff []bus.Future
+	for _, rows := range c.nodes {
+		own := append([]int{}, rows...)
+		if desc {
+			for i, j := 0, len(own)-1; i < j; i, j = i+1, j-1 {
+				own[i], own[j] = own[j], own[i]
+			}
+		}
+		if limit < len(own) {
+			own = own[:limit]
+		}
+		if c.kind == "trace" {
+			resp := &tracev1.InternalQueryResponse{}
+			for _, i := range own {
+				resp.InternalTraces = append(resp.InternalTraces, &tracev1.InternalTrace{TraceId: fmt.Sprintf("t%05d", i), Key: int64(i)})
+			}
+			ff = append(ff, dqFuture{m: bus.NewMessage(1, resp)})
+		} else {
+			resp := &measurev1.InternalQueryResponse{}
+			for _, i := range own {
+				resp.DataPoints = append(resp.DataPoints, &measurev1.InternalDataPoint{DataPoint: &measurev1.DataPoint{
+					Timestamp: tsOf(int64(i+1) * 1000000000), Sid: uint64(i + 1), Version: 1,
+				}})
+			}
+			ff = append(ff, dqFuture{m: bus.NewMessage(1, resp)})
+		}
+	}
+	return ff, nil
+}
+
+func (c *dqCluster) TimeRange() *modelv1.TimeRange {
+	return &modelv1.TimeRange{Begin: tsOf(0), End: tsOf(1000000 * 1000000000)}
+}
+func (c *dqCluster) NodeSelectors() map[string][]string { return nil }
+
+func doDQ(f []string) string {
+	if len(f) != 8 {
+		return "bad-op"
+	}
+	kind, order := f[1], f[2]
+	nodes, _ := strconv.Atoi(f[3])
+	rows, _ := strconv.Atoi(f[4])
+	limit, _ := strconv.Atoi(f[5])
+	offset, _ := strconv.Atoi(f[6])
+	seed, _ := strconv.Atoi(f[7])
+	cl := &dqCluster{kind: kind, nodes: make([][]int, nodes)}
+	for i := 0; i < rows; i++ {
+		n := int((uint64(i)*2654435761+uint64(seed))%7919) % nodes
+		cl.nodes[n] = append(cl.nodes[n], i)
+	}
+	var ob *modelv1.QueryOrder
+	switch order {
+	case "asc":
+		ob = &modelv1.QueryOrder{Sort: modelv1.Sort_SORT_ASC}
+	case "desc":
+		ob = &modelv1.QueryOrder{Sort: modelv1.Sort_SORT_DESC}
+	}
+	ctx := executor.WithDistributedExecutionContext(context.Background(), cl)
+	var ids []string
+	if kind == "trace" {
+		tr := &databasev1.Trace{
+			Tags: []*databasev1.TraceTagSpec{
+				{Name: "trace_id", Type: databasev1.TagType_TAG_TYPE_STRING},
+				{Name: "duration", Type: databasev1.TagType_TAG_TYPE_INT},
+			},
+			TraceIdTagName: "trace_id",
+		}
+		s, err := ltrace.BuildSchema(tr, []*databasev1.IndexRule{{Tags: []string{"duration"}}})
+		if err != nil {
+			return "SCHEMAERR"
+		}
+		req := &tracev1.QueryRequest{Name: "t", Groups: []string{"g"}, TagProjection: []string{}, Limit: uint32(limit), Offset: uint32(offset), OrderBy: ob}
+		plan, err := ltrace.DistributedAnalyze(req, []logical.Schema{s})
+		if err != nil {
+			return "ANALYZEERR"
+		}
+		it, err := plan.(executor.TraceExecutable).Execute(ctx)
+		if err != nil {
+			return "EXECERR"
+		}
+		for {
+			r, ok := it.Next()
+			if !ok {
+				break
+			}
+			v, _ := strconv.Atoi(strings.TrimPrefix(r.TID, "t"))
+			ids = append(ids, strconv.Itoa(v))
+		}
+	} else {
+		md := &databasev1.Measure{
+			Metadata: &commonv1.Metadata{Name: "m", Group: "g"},
+			TagFamilies: []*databasev1.TagFamilySpec{{Name: "default",
+				Tags: []*databasev1.TagSpec{{Name: "svc", Type: databasev1.TagType_TAG_TYPE_STRING}}}},
+			Entity: &databasev1.Entity{TagNames: []string{"svc"}},
+		}
+		s, err := lmeasure.BuildSchema(md, nil)
+		if err != nil {
+			return "SCHEMAERR"
+		}
+		req := &measurev1.QueryRequest{Name: "m", Groups: []string{"g"}, Limit: uint32(limit), Offset: uint32(offset), OrderBy: ob}
+		plan, err := lmeasure.DistributedAnalyze(req, []logical.Schema{s}, 0)
+		if err != nil {
+			return "ANALYZEERR"
+		}
+		it, err := plan.(executor.MeasureExecutable).Execute(ctx)
+		if err != nil {
+			return "EXECERR"
+		}
+		for it.Next() {
+			for _, idp := range it.Current() {
+				ids = append(ids, strconv.FormatUint(idp.GetDataPoint().GetSid()-1, 10))
+			}
+		}
+		_ = it.Close()
+	}
+	got := "-"
+	if len(ids) > 0 {
+		got = strings.Join(ids, ",")
+	}
+	return "pushed=" + strings.Join(cl.pushed, ",") + " got=" + got
+}
+
 func handle(f []string) string {
 	if len(f) == 0 {
 		return "bad-op"
@@ -626,6 +828,10 @@ func handle(f []string) string {
 		return doMQR(f)
 	case "tsidx":
 		return doTSidx(f)
+	case "sidxq":
+		return doSIdxQ(f)
+	case "dq":
+		return doDQ(f)
 	case "djp":
 		return doDJP(f)
 	case "squery":
